@@ -257,42 +257,62 @@ pub proof fn lemma_trunc_sign(a: int, b: int, t: int)
     }
 }
 
-/// the truncated quotient of an i128 dividend fits in i128 except for MIN / -1
-pub proof fn lemma_trunc_fits(a: int, b: int, t: int)
-    requires fits_i128(a), is_trunc(a, b, t), !(a == i128::MIN as int && b == -1)
-    ensures fits_i128(t)
-{
-    lemma_trunc_bound(a, b, t);
-    lemma_trunc_sign(a, b, t);
-    if a == i128::MIN as int && t == -(i128::MIN as int) {
-        // t >= 0 so this is the floor case with b < 0: t*b >= a, i.e. 2^127 * b >= -2^127
-        assert(b >= -1) by(nonlinear_arith) requires b < 0, t * b >= a, a == -t, t > 0;
-        assert(false);
-    }
-}
-
-/// floor / ceiling of an i128 dividend fit in i128 except for MIN / -1
-pub proof fn lemma_floor_fits(a: int, b: int, q: int)
-    requires fits_i128(a), is_floor(a, b, q), !(a == i128::MIN as int && b == -1)
-    ensures fits_i128(q)
+/// rounded quotients of a dividend in [-h, h) stay in [-h, h) except for (-h) / -1   (h = 2^127 or 2^255)
+pub proof fn lemma_floor_fits_h(a: int, b: int, q: int, h: int)
+    requires h > 2, -h <= a < h, is_floor(a, b, q), !(a == -h && b == -1)
+    ensures -h <= q < h
 {
     lemma_floor_bound(a, b, q);
-    if a == i128::MIN as int && q == -(i128::MIN as int) {
+    if a == -h && q == h {
         lemma_mul_succ(q, b);
         if b > 0 { assert(false) by(nonlinear_arith) requires b > 0, q * b <= a, a == -q, q > 0; }
         else { assert(b >= -1) by(nonlinear_arith) requires b < 0, q * b >= a, a == -q, q > 0; }
     }
 }
-pub proof fn lemma_ceil_fits(a: int, b: int, q: int)
-    requires fits_i128(a), is_ceil(a, b, q), !(a == i128::MIN as int && b == -1)
-    ensures fits_i128(q)
+pub proof fn lemma_ceil_fits_h(a: int, b: int, q: int, h: int)
+    requires h > 2, -h <= a < h, is_ceil(a, b, q), !(a == -h && b == -1)
+    ensures -h <= q < h
 {
     lemma_ceil_bound(a, b, q);
-    if a == i128::MIN as int && q == -(i128::MIN as int) {
+    if a == -h && q == h {
         lemma_mul_succ(q, b);
         if b > 0 { assert(false) by(nonlinear_arith) requires b > 0, q * b - b < a, a == -q, q > 1; }
         else { assert(b >= -1) by(nonlinear_arith) requires b < 0, q * b - b > a, a == -q, q > 2; }
     }
+}
+pub proof fn lemma_trunc_fits_h(a: int, b: int, t: int, h: int)
+    requires h > 2, -h <= a < h, is_trunc(a, b, t), !(a == -h && b == -1)
+    ensures -h <= t < h
+{
+    if (a >= 0 && b > 0) || (a <= 0 && b < 0) { lemma_floor_fits_h(a, b, t, h); } else { lemma_ceil_fits_h(a, b, t, h); }
+}
+pub proof fn lemma_trunc_fits(a: int, b: int, t: int)
+    requires fits_i128(a), is_trunc(a, b, t), !(a == i128::MIN as int && b == -1)
+    ensures fits_i128(t)
+{
+    lemma_trunc_fits_h(a, b, t, -(i128::MIN as int));
+}
+pub proof fn lemma_floor_fits(a: int, b: int, q: int)
+    requires fits_i128(a), is_floor(a, b, q), !(a == i128::MIN as int && b == -1)
+    ensures fits_i128(q)
+{
+    lemma_floor_fits_h(a, b, q, -(i128::MIN as int));
+}
+pub proof fn lemma_ceil_fits(a: int, b: int, q: int)
+    requires fits_i128(a), is_ceil(a, b, q), !(a == i128::MIN as int && b == -1)
+    ensures fits_i128(q)
+{
+    lemma_ceil_fits_h(a, b, q, -(i128::MIN as int));
+}
+
+/// the product of two i128 values has magnitude at most 2^254: it fits in 256 bits and is not the 256-bit minimum
+pub proof fn lemma_i128_product_256(x: int, y: int)
+    requires fits_i128(x), fits_i128(y)
+    ensures i256_fits(x * y), x * y > -i256_hi()
+{
+    let m = -(i128::MIN as int);
+    assert(-(m * m) <= x * y <= m * m) by(nonlinear_arith) requires -m <= x <= m, -m <= y <= m, m > 0;
+    assert(m * m + m * m == i256_hi());
 }
 
 // ------------------------------------------------------------------------------------------------
